@@ -71,14 +71,101 @@ def cases(rng, tier):
         ops.append(red)
         ops.append(dict(red, auth=["c1", "client_secret_basic"], redirect=uri if variant != "redirect-added" else None))
         out.append({"cfg": dict(H.World().cfg), "ops": ops})
+    # "the issued token belongs to exactly the user and scope that were approved" when the access token is a JWT (RFC 9068 / RFC 7523 generators):
+    # the claims inside the token, per flow, also after a refresh
+    for gen in ("jwt9068", "jwt7523"):
+        for flow in ("code", "device", "hybrid", "password"):
+            for user in (1, 2):
+                for refresh in (False, True):
+                    out.append({"jwt_owner": {"gen": gen, "flow": flow, "user": user, "refresh": refresh, "scope": "a b"}, "cfg": {}, "ops": []})
+    # consent step and decision on ONE request object: get_consent_grant(request, end_user=U) attaches U; the decision then says "denied" (grant_user=None).
+    # Nothing may be issued, and nothing redeemable may be stored — every response type, approve for comparison
+    for rt in ("code", "code id_token", "code token", "code id_token token", "id_token", "id_token token", "token"):
+        for approve in (False, True):
+            out.append({"consent_decision": {"rt": rt, "approve": approve}, "cfg": {}, "ops": []})
+    return out
+
+
+def impl_consent_decision(c):
+    from urllib.parse import urlparse, parse_qsl
+    import memserver as ms
+    from memserver import Req, Client
+    j = c["consent_decision"]
+    store, srv, rp = ms.build(oidc=True)
+    public = j["rt"] in ("id_token", "id_token token", "token")
+    store.clients["c1"] = Client("c1", "" if public else "s1", ["https://c1/cb"], "a b openid", ms.ALL_GRANT_TYPES, ms.ALL_RESPONSE_TYPES, "none" if public else "client_secret_basic")
+    form = dict(response_type=j["rt"], client_id="c1", scope="openid a" if j["rt"] != "token" and j["rt"] != "code" else "a", state="s", redirect_uri="https://c1/cb", nonce="n1")
+    req = srv.create_oauth2_request(Req("POST", "https://as.example/authorize", form))
+    grant = srv.get_consent_grant(req, end_user=store.users[1])
+    r = srv.create_authorization_response(grant.request, grant_user=store.users[1] if j["approve"] else None)
+    loc = dict(r.headers).get("Location", "")
+    q = dict(parse_qsl(urlparse(loc).query + "&" + urlparse(loc).fragment, keep_blank_values=True))
+    out = {"status": r.status, "error": q.get("error"), "handed_out": sorted(k for k in ("code", "access_token", "id_token") if k in q),
+           "stored_codes": len(store.codes), "stored_tokens": len(store.tokens)}
+    if "code" in q:
+        r2 = srv.create_token_response(Req("POST", "https://as.example/token", dict(grant_type="authorization_code", code=q["code"], redirect_uri="https://c1/cb"), ms.basic("c1", "s1")))
+        out["redeemed"] = "access_token" in r2.body
+    return out
+
+
+def impl_jwt_owner(c):
+    import base64, json
+    from urllib.parse import urlparse, parse_qsl
+    import memserver as ms
+    from memserver import Req, Client
+    from props import c08
+    j = c["jwt_owner"]
+    store, srv, rp = ms.build(oidc=True)
+    c08._install_generator(srv, store, j["gen"])
+    store.clients["c1"] = Client("c1", "s1", ["https://c1/cb"], "a b c openid", ms.ALL_GRANT_TYPES, ms.ALL_RESPONSE_TYPES)
+    hdr = ms.basic("c1", "s1")
+    user = store.users[j["user"]]
+    def claims(body):
+        tok = body.get("access_token", "")
+        parts = tok.split(".")
+        if len(parts) != 3:
+            return {"not_jwt": tok[:12]}
+        p = json.loads(base64.urlsafe_b64decode(parts[1] + "=" * (-len(parts[1]) % 4)))
+        return {"sub": p.get("sub"), "client_id": p.get("client_id"), "scope": p.get("scope"), "response_scope": body.get("scope")}
+    TOK = "https://as.example/token"
+    if j["flow"] in ("code", "hybrid"):
+        rt = "code" if j["flow"] == "code" else "code token"
+        form = dict(response_type=rt, client_id="c1", scope=j["scope"] + (" openid" if j["flow"] == "hybrid" else ""), state="s", redirect_uri="https://c1/cb", nonce="n1")
+        r = srv.create_authorization_response(Req("POST", "https://as.example/authorize", form), grant_user=user)
+        loc = dict(r.headers).get("Location", "")
+        q = dict(parse_qsl(urlparse(loc).query + "&" + urlparse(loc).fragment, keep_blank_values=True))
+        if "code" not in q:
+            return {"error": "no code: " + loc[:80]}
+        r = srv.create_token_response(Req("POST", TOK, dict(grant_type="authorization_code", code=q["code"], redirect_uri="https://c1/cb"), hdr))
+    elif j["flow"] == "device":
+        r = srv.create_endpoint_response("device_authorization", Req("POST", "https://as.example/device", dict(client_id="c1", scope=j["scope"]), hdr))
+        store.user_grants[r.body["user_code"]] = (j["user"], True)
+        r = srv.create_token_response(Req("POST", TOK, dict(grant_type="urn:ietf:params:oauth:grant-type:device_code", device_code=r.body["device_code"]), hdr))
+    else:
+        # the password grant authenticates the user named in the request
+        r = srv.create_token_response(Req("POST", TOK, dict(grant_type="password", username=str(j["user"]), password="pw", scope=j["scope"]), hdr))
+    if "access_token" not in r.body:
+        return {"error": str(r.body)[:100]}
+    out = {"first": claims(r.body)}
+    if j["refresh"]:
+        if not r.body.get("refresh_token"):
+            return dict(out, refreshed="no-refresh-token")
+        r2 = srv.create_token_response(Req("POST", TOK, dict(grant_type="refresh_token", refresh_token=r.body["refresh_token"]), hdr))
+        out["refreshed"] = claims(r2.body) if "access_token" in r2.body else {"error": str(r2.body)[:100]}
     return out
 
 
 def impl(c):
+    if "consent_decision" in c:
+        return impl_consent_decision(c)
+    if "jwt_owner" in c:
+        return impl_jwt_owner(c)
     return H.replay_all(c)
 
 
 def model_line(c):
+    if "jwt_owner" in c or "consent_decision" in c:
+        return None
     return {"cfg": c["cfg"], "ops": c["ops"]}
 
 
@@ -175,15 +262,48 @@ def _oracle_core(c, out):
     return v
 
 
-oracle = H.oracle_all(oracle_core)
+_oracle_hist = H.oracle_all(oracle_core)
+
+
+def oracle(c, out):
+    if "consent_decision" in c:
+        j = c["consent_decision"]
+        if not j["approve"] and (out["handed_out"] or out["stored_codes"] or out["stored_tokens"] or out.get("redeemed")):
+            return [(f"response_type {j['rt']!r}: the resource owner was attached at the consent step and the decision was a denial, yet {out['handed_out']} were handed out "
+                     f"({out['stored_codes']} code(s), {out['stored_tokens']} token(s) stored; code redeemable: {out.get('redeemed')})", {"kind": "issued-without-approval", "rt": j["rt"]})]
+        if j["approve"] and (out["error"] or not out["handed_out"]):
+            return [(f"response_type {j['rt']!r}: approved request answered {out}", {"kind": "approved-refused", "rt": j["rt"]})]
+        return []
+    if "jwt_owner" not in c:
+        return _oracle_hist(c, out)
+    j, v = c["jwt_owner"], []
+    if "error" in out:
+        return [(f"JWT access tokens ({j['gen']}), {j['flow']} flow approved by user {j['user']}: no token — {out['error']}", {"kind": "jwt-owner", "flow": j["flow"], "what": "flow-failed"})]
+    for step in ("first", "refreshed"):
+        cl = out.get(step)
+        if cl is None or cl == "no-refresh-token":
+            continue
+        if "error" in cl or "not_jwt" in cl:
+            v.append((f"JWT access tokens ({j['gen']}), {j['flow']} flow, {step} token: {cl}", {"kind": "jwt-owner", "flow": j["flow"], "what": "flow-failed"})); continue
+        if str(cl["sub"]) != str(j["user"]):
+            v.append((f"JWT access token ({j['gen']}) issued by the {j['flow']} flow{' and refreshed' if step == 'refreshed' else ''}: sub = {cl['sub']!r}, the resource owner who approved is user {j['user']}",
+                      {"kind": "jwt-owner", "flow": j["flow"], "what": "sub"}))
+        if cl["client_id"] not in (None, "c1") or set((cl["scope"] or "").split()) - set(j["scope"].split()) - {"openid"}:
+            v.append((f"JWT access token ({j['gen']}) issued by the {j['flow']} flow: client_id {cl['client_id']!r} / scope {cl['scope']!r}, approved were client c1 / scope {j['scope']!r}",
+                      {"kind": "jwt-owner", "flow": j["flow"], "what": "client-or-scope"}))
+    return v
 
 
 def classify(c, out):
+    if "consent_decision" in c:
+        return "consent_decision/" + ("approve" if c["consent_decision"]["approve"] else "deny")
+    if "jwt_owner" in c:
+        return "jwt_owner/" + c["jwt_owner"]["gen"] + "/" + c["jwt_owner"]["flow"]
     return "history/" + str(len(c["ops"]))
 
 
 def nontrivial(c, out):
-    return c["ops"]
+    return c.get("jwt_owner") or c.get("consent_decision") or c["ops"]
 
 
 def search(breaks, rng, known, match_known):
